@@ -30,10 +30,17 @@ class MonFile:
         self.injected = 0
         self._pos = 0
         self.closed = False
+        self.seek_delay = None      # seconds a seek issued from a worker thread takes (a slow handle: network file system)
+        self.worker_seeks = 0
 
     def seek(self, off, whence=0):
         r = self.f.seek(off, whence)
         self._pos = self.f.tell()
+        if self.seek_delay and threading.current_thread() is not threading.main_thread():
+            # the suspension point between positioning the shared handle and reading from it
+            self.worker_seeks += 1
+            import time
+            time.sleep(self.seek_delay)
         return r
 
     def tell(self):
